@@ -20,7 +20,7 @@ try:
     target = meta["demo_path"].split()[0]
     assert len(demos) == 1, demos
     shutil.copy(demos[0], os.path.join(wt, target))
-    cmds = [c.strip() for c in re.split(r"&&|;", meta["demo_cmd"]) if c.strip().startswith("go test")]
+    cmds = [c.strip()[c.strip().index("go test"):] for c in re.split(r"&&|;", meta["demo_cmd"]) if "go test" in c]
     demo_cmd = cmds[-1]
     p = sh(demo_cmd); rec["demo_without_patch"] = "pass" if p.returncode == 0 else "FAIL"
     if p.returncode != 0: print(p.stdout[-2000:])
